@@ -80,3 +80,23 @@ Example C13_nonvacuous :
   down_closed (Int [Cls 1; Uni [Strict 1 1; Cls 0]]) = true /\
   subclasscheck_h wh (Cls 2) (Cls 1) = Some true.
 Proof. vm_compute. repeat split; reflexivity. Qed.
+
+(* ---- leaf tie: the generic-alias branch of subclasscheck as regenerated from /repo's current source on every run
+   (Gen/Leaf.v gen_sub_src: origin test, same number of arguments, argument-wise tests) IS the model's, with the calls it
+   makes put back in ---- *)
+From OvldV Require Import Gen.Leaf Proofs.LeafDep.
+
+Theorem C13_leaf_generic_branch : forall sub hasm chk fresh (rec : ty -> ty -> option bool) t1 o2 a2,
+  ty_eqb t1 (Gen o2 a2) = false ->
+  subck_body sub hasm chk fresh rec t1 (Gen o2 a2) =
+    let o1' := match t1 with Gen o _ => Cls o | _ => t1 end in
+    let a1 := match t1 with Gen _ a => a | _ => [] end in
+    match issub_cls sub fresh o1' o2 with
+    | None => None
+    | Some osub =>
+        if osub && Nat.eqb (length a1) (length a2)
+        then omap (fun ok => gen_sub_src osub false (length a1) (length a2) ok) (oforall2 rec a1 a2)
+        else Some (gen_sub_src osub false (length a1) (length a2) false)
+    end.
+Proof. exact gen_branch_decides. Qed.
+Print Assumptions C13_leaf_generic_branch.
